@@ -6,7 +6,7 @@ from lib.coqterm import cbytes, cbool, copt, cN, clist, cpair, hx, unhx
 
 ID = "C13"
 QUICK_N = 2000
-THOROUGH_N = 20000
+THOROUGH_N = 15000
 SHARD = 100
 RULE = ("55% generated ClientHellos (TLS and DTLS; versions, session ids, cookies, GREASE and ordinary cipher lists, "
         "no/empty/filled extension block, SNI hosts from a token dictionary incl. IDNA, IP literals, over-long and "
